@@ -161,7 +161,7 @@ func (g *c08gen) failStmt() (string, string) {
 			return fmt.Sprintf("UPDATE tv SET n = 5, id = 10 / (id - %d);", kt), ""
 		}
 	}
-	switch g.r.Intn(30) {
+	switch g.r.Intn(32) {
 	case 28:
 		return fmt.Sprintf("ALTER TABLE %s SET %s;", t, g.r.PickS("ENCODING TO 'NOSUCH'", "DELIMITER TO 'ab'", "FORMAT TO 'NOSUCH'", "LINE_BREAK TO 'XX'", "NO_SUCH_ATTR TO 1")), ""
 	case 29:
@@ -244,6 +244,13 @@ func (g *c08gen) failStmt() (string, string) {
 		return fmt.Sprintf("ALTER TABLE %s RENAME n TO s;", t), ""
 	case 14:
 		return "UPDATE t0, t1 SET n = 1 FROM t0 JOIN t1 ON t0.id = t1.id;", ""
+	case 30, 31:
+		// several columns added by one statement, a later one fails: none of them is there afterwards
+		return g.r.PickS(
+			fmt.Sprintf("ALTER TABLE %s ADD (m1 DEFAULT 'x', m2 DEFAULT 1 / (id - %d));", t, k),
+			fmt.Sprintf("ALTER TABLE %s ADD (m1, m2 DEFAULT n * 2, m1);", t),
+			fmt.Sprintf("ALTER TABLE %s ADD (m1 DEFAULT id, m2 DEFAULT (SELECT no_such_col FROM t0)) FIRST;", t),
+			fmt.Sprintf("ALTER TABLE %s ADD (m1 DEFAULT 1, id) AFTER id;", t)), ""
 	default:
 		return fmt.Sprintf("UPDATE %s SET s = 'first-item-done', n = 10 / (id - %d);", t, k), ""
 	}
